@@ -199,7 +199,11 @@ impl<C: ContentAddrStore> UnsealedState<C> {
 
     fn apply_tip_909(&mut self) {
         let divider = self.height.0.saturating_sub(TIP_909_HEIGHT.0) / 1_000_000;
-        let reward = (1u128 << 20) >> divider;
+        // the subsidy halves away: nothing is left of 2^20 after 21 halvings, and shifting by the whole
+        // width of the type (the 128th halving, block 128 950 000) is an overflow, not zero
+        let reward = (1u128 << 20)
+            .checked_shr(divider.min(u32::MAX as u64) as u32)
+            .unwrap_or(0);
         let tip909a_erg_subsidy = reward >> 8;
         // fee subsidy
         let fee_subsidy = if self.tip_909a() {
